@@ -316,10 +316,12 @@ func (ex *Exec) concretize(t *Term, what string) uint64 {
 }
 
 func (s *Solver) getTermValue(t *Term) (uint64, error) {
-	s.send("(get-value (" + ref(t) + "))")
-	ans, err := s.readSexp()
+	ans, stray, err := s.exchange("(get-value (" + ref(t) + "))")
 	if err != nil {
 		return 0, err
+	}
+	if len(stray) > 0 {
+		return 0, fmt.Errorf("%s", strings.Join(stray, " "))
 	}
 	if strings.HasPrefix(ans, "(error") {
 		return 0, fmt.Errorf("%s", ans)
